@@ -42,9 +42,18 @@ def build_framework(spec):
         fw.sheets["population types"] = [_df(["code name", "description"], [[t, t.upper() + " type"] for t in types])]
     fw.sheets["databook pages"] = [_df(["datasheet code name", "datasheet title"], [["stocks", "Stocks"], ["flows", "Flows"]])]
 
+    # how the setup weights reach the framework: "explicit" (every cell filled in by the harness with the documented default), "blank" (the column exists, as in
+    # template-made frameworks, but cells without an explicit weight are left empty), "nocolumn" (no such column; only when no item has an explicit weight).
+    # In the last two the library's own default rule fills them in: 1 for an item with a databook page or a default value (not a source/sink), else 0.
+    sw_mode = spec.get("sw_mode", "explicit")
+    if sw_mode == "nocolumn" and any(c.get("setup") is not None for c in spec["comps"] + spec.get("characs", [])):
+        sw_mode = "blank"
+
     def setup_weight(c):
         if "setup" in c and c["setup"] is not None:
             return c["setup"]
+        if sw_mode != "explicit":
+            return None
         return 1 if (c.get("databook") or c.get("default") is not None) else 0
 
     rows = []
@@ -54,6 +63,8 @@ def build_framework(spec):
         rows.append([c["name"], c["name"].upper() + " comp", "y" if k == "source" else "n", "y" if k == "sink" else "n", "y" if k == "junction" else "n",
                      setup_weight(c), c.get("default"), db, _type_of(spec, c)])
     fw.sheets["compartments"] = [_df(["code name", "display name", "is source", "is sink", "is junction", "setup weight", "default value", "databook page", "population type"], rows)]
+    if sw_mode == "nocolumn":
+        fw.sheets["compartments"][0] = fw.sheets["compartments"][0].drop(columns=["setup weight"])
     fw.sheets["transitions"] = []
     for t in (types or [None]):
         names = [c["name"] for c in spec["comps"] if _type_of(spec, c) == t]
@@ -74,6 +85,8 @@ def build_framework(spec):
                      "stocks" if c.get("databook") else None, _type_of(spec, c)])
     if rows:
         fw.sheets["characteristics"] = [_df(["code name", "display name", "components", "denominator", "setup weight", "default value", "databook page", "population type"], rows)]
+        if sw_mode == "nocolumn":
+            fw.sheets["characteristics"][0] = fw.sheets["characteristics"][0].drop(columns=["setup weight"])
     rows = []
     for p in spec["pars"]:
         rows.append([p["name"], p["name"].upper() + " par", p["format"], None, p.get("min"), p.get("max"), p.get("function"), "flows" if p.get("databook", True) else None,
@@ -439,6 +452,9 @@ def random_init_spec(r, regime="consistent", features=None):
     spec["_truth"] = truth
     spec["init_regime"] = regime
     perturb(r, spec, regime)
+    # how the setup weights are written into the framework (derived from the spec, not from `r`, so that the random stream of older seeds is unchanged)
+    import zlib
+    spec["sw_mode"] = ["explicit", "blank", "nocolumn"][zlib.crc32(repr([(c["name"], c.get("default"), c.get("databook")) for c in spec["comps"]] + [regime, spec["settings"]]).encode()) % 3]
     return spec
 
 
